@@ -120,6 +120,12 @@ def run_chain_twin(req):
                 import stackscope
                 for _ in range(req.get("repeat", 1)):
                     st = stackscope.extract(x)
+                    try:      # reading a result is not a change of the target
+                        str(st)
+                        st.format_flat(show_contexts=True)
+                        st.as_stdlib_summary(show_contexts=True)
+                    except Exception:
+                        pass
                     st2 = stackscope.extract(x)
                     if st.error is None and st2.error is None and not (st == st2):
                         obs.append({"kind": "pure.consecutive_extractions_differ", "step": step})
